@@ -719,7 +719,7 @@ async fn run_sdp(ctx: &Ctx) {
             if timed_out {
                 ctx.violate("C07.hang", format!("a signaling API call fed with hostile text did not return within 60 s of virtual time (progress so far: {outcome}); input: {note}"));
             }
-            if wall > SETTLE_WALL_BUDGET {
+            if crate::sim::panic_count() == panics0 && over_budget(wall) {
                 ctx.violate("C07.hang", format!("a signaling API call fed with hostile text kept the run busy for more than {} s of wall-clock time; input: {note}", SETTLE_WALL_BUDGET.as_secs()));
             }
             // every m= / a=rid / a=simulcast / a=group line may legitimately create a transport or a track as large as the
